@@ -2,9 +2,10 @@ SPECIFICATION TSpec
 CONSTANTS
   Guids = {"g1", "g2", "g3", "g4"}
   RuleIds = {"", "r0", "r1", "r2", "r3"}
+  Contents = {"c1", "c2", "c3"}
   Versions = {"1.0", "2.0"}
   ModeOf <- TModeOf
-  RulesKeyedOnIdOnly = FALSE
+  RulesKey = "item"
   IdsIdentifyContent = FALSE
   InitScenarios = {"fresh"}
   InitDocs = {}
